@@ -2,9 +2,9 @@
 import json, os, re, copy
 import vlib
 
-C03_WHATS = {"finalizer-write-not-as-requested", "tad-gave-up-on-stale-state", "removed-with-finalizers", "ready-with-finalizers", "tad-success-not-gone", "watchfor-not-first-match",
+C03_WHATS = {"error-without-justification", "finalizer-write-not-as-requested", "tad-gave-up-on-stale-state", "removed-with-finalizers", "ready-with-finalizers", "tad-success-not-gone", "watchfor-not-first-match",
              "ctx-cancelled-spuriously", "missed-wakeup", "ctx-not-cancelled", "stale-read", "final-contents"}
-C04_WHATS = {"finalizer-write-not-as-requested", "error-had-effect", "applied-twice", "conflict-retried-into-success", "returned-not-written",
+C04_WHATS = {"error-without-justification", "finalizer-write-not-as-requested", "error-had-effect", "applied-twice", "conflict-retried-into-success", "returned-not-written",
              "returned-not-current", "noop-success-without-effect", "success-in-wrong-phase", "rmw-not-on-current", "rmw-not-on-current-aba", "mutation-lost", "ready-with-finalizers",
              "update-version", "rmw-call-never-returned", "create-over-existing", "modify-create-content", "unexpected-update", "stale-read",
              "final-contents"}
